@@ -1,6 +1,8 @@
 //! Conformance harness for flussab: drives the real code and records ndjson traces that are
 //! validated against the TLA+ specifications in /verif/spec, and replays TLC-generated cases.
+pub mod parsed_cases;
 pub mod reader_hist;
+pub mod scan_vectors;
 pub mod sink;
 pub mod source;
 pub mod trace;
